@@ -458,12 +458,12 @@ Definition backend_entries (m : gmap N (list backend)) : list ((N * N * N) * bac
   isort (fun x y : (N * N * N) * backend => match N3_cmp (fst x) (fst y) with Gt => false | _ => true end)
         (map_to_list (backend_map m)).
 
+Definition backend_chunk (my other : gmap N (list backend)) (k : N * N * N) (r : dres) : list request :=
+  let rm := match backend_map my !! k with Some b => [RRemoveBackend (fst (fst k)) (b_id b) (b_addr b)] | None => [] end in
+  let ad := match backend_map other !! k with Some b => [RAddBackend (fst (fst k)) b] | None => [] end in
+  match r with DAdded => ad | DRemoved => rm | DChanged => rm ++ ad end.
 Definition diff_backends (my other : gmap N (list backend)) : list request :=
-  flat_map (fun kr : (N * N * N) * dres =>
-              let '((c, id, a), r) := kr in
-              let rm := match backend_map my !! (c, id, a) with Some b => [RRemoveBackend c (b_id b) (b_addr b)] | None => [] end in
-              let ad := match backend_map other !! (c, id, a) with Some b => [RAddBackend c b] | None => [] end in
-              match r with DAdded => ad | DRemoved => rm | DChanged => rm ++ ad end)
+  flat_map (fun kr : (N * N * N) * dres => backend_chunk my other (fst kr) (snd kr))
            (diff_map N3_cmp (fun a b : backend => bool_decide (a = b)) (backend_entries my) (backend_entries other)).
 
 Definition cluster_chunk (other : gmap N cluster) (k : N) (r : dres) : list request :=
